@@ -595,7 +595,10 @@ def s10():
            'committed in `/repo`. `tools/try_seed.sh <patch> <id> <tier>` repeats this for one seed; from session 3 on the seeds are applied in\n'
            'scratch worktrees instead and the checks pointed at them with `VERIF_REPO` (`tools/seed_regress.py`, which also re-runs every kept seed).\n\n'
            '%d seeds kept; %d reported as VIOLATION by the quick tier of their property\'s check (several only after the check was\n'
-           'strengthened — noted in the last column, and in §11); %d not detected.\n\n' % (n, n - len(miss), len(miss)),
+           'strengthened — noted in the last column, and in §11); %d not detected. Re-run status at the end of session 3: the 54 seeds of\n'
+           'rounds 3 and 4 and the earlier seeds of C01–C10 were run against the final engine; the earlier seeds of C11–C19 (26) were last\n'
+           'run before the session-3 engine changes (`tools/seed_regress.py --older` repeats them). C01 and C11 sample their bit-precise jobs\n'
+           'in the quick tier, so for a few seeds detection depends on VERIF_SEED (noted per seed); the thorough tier runs every job.\n\n' % (n, n - len(miss), len(miss)),
            '| property | seed | change | result |\n|---|---|---|---|\n']
     for r in rows:
         out.append('| %s | %s | %s | %s |\n' % (r[0], r[1].split('-', 1)[1], r[2].replace('|', '\\|'), r[3].replace('|', '\\|')))
@@ -668,6 +671,16 @@ never listed as findings), and misses found by the seeds:
   a relay-leg memo keyed by the bare number, field limits in one dict shared by the genders, junior lists extended in place, an
   incrementally cached `trials`) and `Decimal // Decimal(float)`, which the decimal shim did not model. All nine are reported now
   (§10); what it took is §2.10 (iii) and the per-property paragraphs of §3.
+* Session 3, blind seeds round 4 (20 changes, explicitly *not* stateful: boundary and rounding slips, option combinations, helpers
+  changed for one caller, shared regex / table edits, input forms): four were not reported at first, all because the symbolic
+  executor met a construct it did not model and ended exit 2 rather than exit 1 - `re.sub` on a symbolic string (now run by the
+  symbolic matcher, validated against `re` on 2 040 strings), an integer times a symbolic float (kept linear by forking on the small
+  integer), `round(x, n)` and `'%s' % float` in a message (decimal rounding in the real model; opaque text), and a bit-precise
+  candidate whose points do not change because `pow` is uninterpreted (such candidates are now excluded and further models
+  requested). Two more would have been outside the quick tier's bounds and are inside now: a retyped cell at the third of four
+  tabulated ages (C05 quick runs every age of the cheap formulas) and a mistyped *distance* cell of the 2015 table (C15's exhaustive
+  row-distance fact; its first version also demanded increasing row order, which the tables do not have - corrected before it was
+  ever committed as evidence).
 * `vp check` #1: evidence committed from a partial `--only` run, and
   `distinct_nontrivial` defined so that it could be 0 → evidence is committed
   from full quick runs only; the metric counts non-syntactic obligations plus
